@@ -17,6 +17,8 @@ package main
 import (
 	"flag"
 	"fmt"
+	"hash/crc32"
+	"sort"
 	"os"
 	"path/filepath"
 	"regexp"
@@ -197,7 +199,7 @@ func translate(repo string, u unit, outDir string) {
 	fmt.Fprintf(&sb, "(* GENERATED by /verif/harness/cmd/tlschema from %s (package %s) on every run -- do not edit. *)\n", u.schema, u.pkg)
 	sb.WriteString("From Coq Require Import ZArith List Bool.\nFrom TD Require Import Model.TlSchema.\nImport ListNotations.\nOpen Scope Z_scope.\n")
 	fmt.Fprintf(&sb, "Definition %s_layer : Z := %d.\n", u.ident, sch.Layer)
-	fmt.Fprintf(&sb, "Definition %s_ctors : list ctor := [\n", u.ident)
+	fmt.Fprintf(&sb, "Definition %s_ctors0 : list ctor := [\n", u.ident)
 	for i, d := range defs {
 		def := d.Definition
 		cls := nClasses
@@ -215,6 +217,59 @@ func translate(repo string, u unit, outDir string) {
 		fmt.Fprintf(&sb, " (* %d %s *) mk_ctor %d %d [%s]%s\n", i, definitionType(def), def.ID, cls, strings.Join(fs, "; "), sep)
 	}
 	sb.WriteString("].\n")
+	// --- gen/make_vector.go: a function whose result is Vector<T> (and no class of that name
+	// exists) gets a helper struct `<T>Vector { Elems []T }` whose Encode/Decode have NO constructor
+	// id (structDef.Vector): Encode = EncodeBare = vector header + elements. It is modelled as a
+	// pseudo-constructor with the single field Elems, addressed bare; TypeID() of all of them is
+	// bin.TypeVector, so the term carries a synthetic id derived from the element type
+	// (crc32 of "vec:<prim>" / "vec:ctor:<id>" / "vec:class:<smallest constructor id>"), which
+	// the harness recomputes by reflection.
+	var vecLines []string
+	seenVec := map[string]bool{}
+	for _, d := range defs {
+		if d.Category != tl.CategoryFunction {
+			continue
+		}
+		cls := d.Definition.Type.String()
+		if !strings.HasPrefix(cls, "Vector<") || seenVec[cls] {
+			continue
+		}
+		if _, isClass := classes[cls]; isClass {
+			continue
+		}
+		seenVec[cls] = true
+		elem := strings.TrimPrefix(cls[:len(cls)-1], "Vector<")
+		fk := field(d.Definition, tl.Parameter{Name: "Elems", Type: tl.Type{Name: "Vector", GenericArg: &tl.Type{Name: elem}}})
+		var key string
+		switch {
+		case strings.Contains(fk, "BPrim "):
+			key = "vec:" + strings.TrimSuffix(fk[strings.Index(fk, "BPrim ")+6:], ")")
+		case classes[elem] != nil && classes[elem].singular:
+			key = fmt.Sprintf("vec:ctor:%d", defs[classes[elem].ctors[0]].Definition.ID)
+		case classes[elem] != nil:
+			ids := []uint32{}
+			for _, c := range classes[elem].ctors {
+				ids = append(ids, defs[c].Definition.ID)
+			}
+			sort.Slice(ids, func(i, j int) bool { return ids[i] < ids[j] })
+			key = fmt.Sprintf("vec:class:%d", ids[0])
+		default:
+			fail("%s: result %s: element type not understood", u.schema, cls)
+		}
+		sid := crc32.ChecksumIEEE([]byte(key))
+		for _, dd := range defs {
+			if dd.Definition.ID == sid {
+				fail("%s: synthetic id of %s collides with %s", u.schema, cls, dd.Definition.Name)
+			}
+		}
+		if seenVec[fmt.Sprint(sid)] {
+			fail("%s: synthetic id of %s collides with another vector box", u.schema, cls)
+		}
+		seenVec[fmt.Sprint(sid)] = true
+		vecLines = append(vecLines, fmt.Sprintf(" (* %d %s %s *) mk_ctor %d %d [%s]", len(defs)+len(vecLines), cls, key, crc32.ChecksumIEEE([]byte(key)), nClasses, fk))
+	}
+	fmt.Fprintf(&sb, "Definition %s_vectors : list ctor := [\n%s\n].\n", u.ident, strings.Join(vecLines, ";\n"))
+	fmt.Fprintf(&sb, "Definition %s_ctors : list ctor := %s_ctors0 ++ %s_vectors.\n", u.ident, u.ident, u.ident)
 	fmt.Fprintf(&sb, "Definition %s_classes : list (list (Z * Z)) := [\n", u.ident)
 	for i, ck := range classOrder {
 		ci := classes[ck]
